@@ -103,7 +103,7 @@ func init() {
 		Rule:        "multi-hand histories with blind updates (raise, lower, ante on/off, to break, from break) placed between hands and at the first wager request of a hand, plus tables created on a break; the level in force at open is the last update applied before the open; for the whole hand the hand engine's ante/blinds, the published hand level and the posted blinds must equal it, a later update changes only the table level, the next hand uses it, a break opens no hand and pauses the table after the current one",
 		Assumptions: []string{"updates are applied at quiescent points (UpdateBlind racing the open itself is not explored here)"},
 		Suites: func(tier string) []*Suite {
-			bound, hands := 3, 4
+			bound, hands := 3, 3
 			if tier == "thorough" {
 				bound, hands = 4, 5
 			}
